@@ -123,6 +123,11 @@ func (p *MP4ChunkParser) readUntil(contentEnd int) error {
 		n, err := p.r.Read(p.buf[p.contentEnd:contentEnd])
 		p.contentEnd += n
 		if err != nil {
+			if err == io.EOF && p.contentEnd >= contentEnd {
+				// The reader delivered the last bytes together with EOF. We got what we asked for,
+				// so let the caller process it; the next Read reports EOF again.
+				return nil
+			}
 			return err
 		}
 		if p.contentEnd >= contentEnd {
